@@ -71,33 +71,23 @@ def obj_lit(x) -> str:
     raise ValueError(f"object {type(x)}")
 
 
-def run_impl(frames) -> list[tuple[list, str | None]]:
-    """The real code on the frames: per frame (what iter_rows yielded, the exception class that ended it)."""
-    from pyjelly import jelly
+def run_impl(frames) -> tuple[list, str | None]:
+    """The real code on the frames: options_from_frame on the first one, then parse_jelly_flat(frames=.., options=..) consumed to
+    its end: (everything yielded, the exception class that ended it)."""
     from pyjelly.integrations.generic import parse as gp
-    from pyjelly.parse.decode import Decoder, options_from_frame
+    from pyjelly.parse.decode import options_from_frame
 
+    ys: list = []
     try:
         opts = options_from_frame(frames[0], delimited=True)
-        phys = opts.stream_types.physical_type
-        cls = gp.GenericTriplesAdapter if phys == jelly.PHYSICAL_STREAM_TYPE_TRIPLES else \
-            gp.GenericQuadsAdapter if phys == jelly.PHYSICAL_STREAM_TYPE_QUADS else gp.GenericGraphsAdapter
-        dec = Decoder(adapter=cls(opts))
     except Exception as e:  # noqa: BLE001
-        return [([], type(e).__name__)]
-    out = []
-    for fr in frames:
-        ys: list = []
-        exc = None
-        try:
-            for y in dec.iter_rows(fr):
-                ys.append(y)
-        except Exception as e:  # noqa: BLE001
-            exc = type(e).__name__
-        out.append((ys, exc))
-        if exc is not None:
-            break
-    return out
+        return [], type(e).__name__
+    try:
+        for y in gp.parse_jelly_flat(None, frames=list(frames), options=opts):
+            ys.append(y)
+    except Exception as e:  # noqa: BLE001
+        return ys, type(e).__name__
+    return ys, None
 
 
 def mutate(rng: random.Random, frames: list) -> str:
@@ -244,20 +234,19 @@ def gen_cases(ctx, n: int) -> tuple[list[str], dict]:
         res = run_impl(frames)
         try:
             fms = "[" + "; ".join(pb_lit(f) for f in frames) + "]"
-            rhs_parts = []
-            for ys, exc in res:
-                if exc is not None and exc not in EXNS:
-                    raise ValueError(exc)
-                ylit = "[" + "; ".join("None" if y is None else f"Some {obj_lit(y)}" for y in ys) + "]"
-                rhs_parts.append(f"({ylit}, {'None' if exc is None else 'Some ' + exc})")
-                stats["yields"] += len(ys)
-                if exc:
-                    stats["exceptions"][exc] = stats["exceptions"].get(exc, 0) + 1
+            ys, exc = res
+            if exc is not None and exc not in EXNS:
+                raise ValueError(exc)
+            ylit = "[" + "; ".join("None" if y is None else f"Some {obj_lit(y)}" for y in ys) + "]"
+            rhs = f"({ylit}, {'None' if exc is None else 'Some ' + exc})"
+            stats["yields"] += len(ys)
+            if exc:
+                stats["exceptions"][exc] = stats["exceptions"].get(exc, 0) + 1
         except ValueError:
             stats["skipped"] += 1
             continue
         stats["mutated" if mutated else "valid"] += 1
-        cases.append(f"tx_reader {fms} = [" + "; ".join(rhs_parts) + "]")
+        cases.append(f"tx_reader {fms} = {rhs}")
     return cases, stats
 
 
